@@ -745,6 +745,9 @@ class Store:
         if isinstance(update, dict) and '_updater' in update:
             updater = update['_updater']
 
+        if isinstance(updater, dict):
+            # the dictionary form {'updater': function or name}
+            updater = updater['updater']
         if updater == DEFAULT_SCHEMA:
             # For all nodes, by default we use an 'accumulate' updater.
             return updater_registry.access('accumulate')
